@@ -34,7 +34,7 @@ _ATTRIBUTE_PATTERN = re.compile(
     # Optional attr options start with ; and are alphanumeric with hyphen
     ;[a-zA-Z0-9\-]+
 )*
-$""",
+\Z""",
     re.VERBOSE,
 )
 _HEX_PATTERN = re.compile("^[a-fA-F0-9]{2}$")
